@@ -1,6 +1,6 @@
 """developer entry point: python3-vt -m pyvc.run <qual> [--mode UNROLL] [--bound N]"""
-import sys, time, argparse
-sys.path.insert(0, "/verif")
+import os, sys, time, argparse
+sys.path.insert(0, os.path.dirname(os.path.dirname(os.path.abspath(__file__))))
 from pyvc.source import Source
 from pyvc.contracts import load_registry
 from pyvc.engine import Engine
